@@ -49,14 +49,16 @@ ROTY = '<<%s, %s, %s>>' % (V((12, 13), 0, (-5, 13)), V(0, 1, 0), V((5, 13), 0, (
 IDEN = '<<%s, %s, %s>>' % (V(1, 0, 0), V(0, 1, 0), V(0, 0, 1))
 FRAMES = ['[rot |-> %s, pos |-> %s]' % (IDEN, V(0, 0, 0)), '[rot |-> %s, pos |-> %s]' % (IDEN, V(1, -2, 5)),
           '[rot |-> %s, pos |-> %s]' % (ROTX, V(1, -2, 5)), '[rot |-> %s, pos |-> %s]' % (ROTY, V(0, 3, -4))]
-LAWS = ('MenuSound', 'OnSurface', 'UnitLaw', 'ReflectLaw', 'SnellLaw', 'RigidFrame', 'TwoSurface')
+LAWS = ('MenuSound', 'OnSurface', 'UnitLaw', 'ReflectLaw', 'SnellLaw', 'RigidFrame', 'TwoSurface', 'GlassLaw')
+SHIFTS = ['<<<<0, 1>>, <<0, 1>>>>', '<<<<3, 1>>, <<0, 1>>>>', '<<<<0, 1>>, <<-3, 1>>>>', '<<<<-2, 1>>, <<0, 1>>>>', '<<<<0, 1>>, <<5, 2>>>>']
 
 
 def cfg(tier, emit, variant='design'):
     c = 'INIT Init\nNEXT Next\nCHECK_DEADLOCK FALSE\nCONSTANTS\n Variant = "%s"\n EmitOn = %s\n' % (variant, 'TRUE' if emit else 'FALSE')
     c += 'INVARIANT Emit\n' if emit else ''.join('INVARIANT %s\n' % i for i in LAWS)
     d = dict(Hits='{%s}' % ', '.join(HITS), Incid='{%s}' % ', '.join('<<%s, %s>>' % (R(*a), R(*b)) for a, b in INCID), Bends='{%s}' % ', '.join(BENDS),
-             Frames='{%s}' % ', '.join(FRAMES if tier != 'quick' else FRAMES[:3]), Lens='{<<5, 2>>, <<7, 1>>}' if tier != 'quick' else '{<<5, 2>>}')
+             Frames='{%s}' % ', '.join(FRAMES if tier != 'quick' else FRAMES[:3]), Lens='{<<5, 2>>, <<7, 1>>}' if tier != 'quick' else '{<<5, 2>>}',
+             Shifts='{%s}' % ', '.join(SHIFTS if tier != 'quick' else SHIFTS[:3]))
     return c, d
 
 
@@ -80,14 +82,18 @@ def replay(rec, ctx, np, SM, SF):
     vertex = 'vertex' if (h['q'][0][0] == 0 and h['q'][1][0] == 0) else 'off-axis'
     # does the ray cross the vertex plane z = 0 (where the Spencer-Murty iteration starts) inside the surface's domain?
     pl_, sl_ = np.array(fv(rec['p0local'])), np.array(fv(rec['s0local']))
+    sx, sy = (float(Fraction(*v)) for v in rec['shift'])
     cross = pl_ - (pl_[2] / sl_[2]) * sl_ if sl_[2] != 0 else np.array([np.inf, np.inf, 0.])
-    steep = kind != 'plane' and (1 + k) * c * c * float(cross[0] ** 2 + cross[1] ** 2) >= 1
-    cls = '%s:%s:%s:%s%s' % (kind, typ, vertex, framed, ':steep' if steep else '')
+    steep = kind != 'plane' and (1 + k) * c * c * float((cross[0] + sx) ** 2 + (cross[1] + sy) ** 2) >= 1
+    offaxis = bool(sx or sy)
+    cls = '%s:%s:%s:%s%s%s' % (kind, typ, vertex, framed, ':steep' if steep else '', (':offaxis-section' + (':local-origin' if rec['localorigin'] else '')) if offaxis else '')
     fails = []
     try:
         Rm = None if framed == 'identity' and not pos.any() else rot
         nfun = (lambda wvl: n1) if typ == 'refract' else None
-        if kind == 'plane':
+        if offaxis:
+            surf = SF.Surface.off_axis_conic(c, k, typ, pos.copy(), dy=sy, dx=sx, n=nfun, R=Rm)
+        elif kind == 'plane':
             surf = SF.Surface.plane(typ, pos.copy(), n=nfun, R=Rm)
         elif kind == 'sphere':
             surf = SF.Surface.sphere(c, typ, pos.copy(), nfun, R=Rm)
@@ -111,6 +117,19 @@ def replay(rec, ctx, np, SM, SF):
             elif two:
                 if core.maxabs(ph[2].reshape(-1)[:3] - p2) > tol or core.maxabs(sh[2].reshape(-1)[:3] - s2) > tol:
                     fails.append(('second-surface', 'P2 %s S2 %s want %s %s' % (ph[2].ravel().tolist(), sh[2].ravel().tolist(), p2.tolist(), s2.tolist())))
+        if two and not fails:
+            # a prescription through glass: the surface, an evaluation plane inside the medium, a plane back into the ambient medium
+            mz = float(Fraction(*rec['mirrorz']))
+            glass = [surf, SF.Surface.plane('eval', np.array([0., 0., mz])), SF.Surface.plane('refract', np.array([0., 0., mz + 1.]), n=lambda wvl: n0)]
+            ph, sh = SM.raytrace(glass, p0[None, :].copy(), s0[None, :].copy(), 0.6, n_ambient=n0)
+            ph, sh = np.asarray(ph).reshape(4, -1)[:, :3], np.asarray(sh).reshape(4, -1)[:, :3]
+            p3, et = np.array(fv(rec['p3'])), np.array(fv(rec['exittan']))
+            if core.maxabs(ph[2] - p2) > tol or core.maxabs(sh[2] - s1) > tol:
+                fails.append(('eval-plane', 'P2 %s S2 %s want %s %s' % (ph[2].tolist(), sh[2].tolist(), p2.tolist(), s1.tolist())))
+            elif core.maxabs(ph[3] - p3) > tol:
+                fails.append(('exit-surface', 'P3 %s want %s' % (ph[3].tolist(), p3.tolist())))
+            elif rec['exitok'] and (core.maxabs(sh[3][:2] - et) > tol or abs(float(np.dot(sh[3], sh[3])) - 1) > 1e-9 or not sh[3][2] > 0):
+                fails.append(('exit-snell', 'leaving the glass: S3 %s, want tangential part %s (n S x z conserved), unit length, forward' % (sh[3].tolist(), et.tolist())))
         # the building blocks on the local-frame quantities
         pl, sl = SM.transform_to_local_coords(p0[None, :].copy(), pos, s0[None, :].copy(), Rm)
         if core.maxabs(np.ravel(pl) - np.array(fv(rec['p0local']))) > tol or core.maxabs(np.ravel(sl) - np.array(fv(rec['s0local']))) > tol:
@@ -123,7 +142,7 @@ def replay(rec, ctx, np, SM, SF):
         if not any('/prysm/' in f.filename for f in traceback.extract_tb(ex.__traceback__)):
             raise
         fails.append(('raised', '%s: %s' % (type(ex).__name__, ex)))
-    ctx.replayed(1, key=json.dumps([rec['hit'], rec['inc'], rec['bend'], rec['frame'], rec['len']]))
+    ctx.replayed(1, key=json.dumps([rec['hit'], rec['inc'], rec['bend'], rec['frame'], rec['len'], rec['shift']]))
     for kind_, m in fails:
         ctx.fail('Ray:%s:%s' % (kind_, cls), 'c=%s k=%s Q=%s inc=%s mu=%s: %s' % (c, k, fv(h['q']), rec['inc'], mu, m[:400]), rec)
 
